@@ -49,24 +49,27 @@ def to_program(pid, h, mode="plain"):
         arr = n
         n += 1
     for a in h["hist"]:
-        def sec(v):
+        def idx(v, k):
             nonlocal n
+            if k == "p":
+                return {"c": v}
             steps.append({"op": "new", "kind": "priv", "ty": "int", "v": v})
             n += 1
             return {"r": n - 1}
-        if a["a"] == "get":
-            steps.append({"op": "getitem", "a": {"r": arr}, "i": sec(a["i"]), "tag": "acc"})
-        elif a["a"] == "getrow":
-            steps.append({"op": "getitem", "a": {"r": arr}, "i": sec(a["i"]), "tag": "acc"})
+        if a["a"] in ("get", "getrow"):
+            steps.append({"op": "getitem", "a": {"r": arr}, "i": idx(a["i"], a["ik"]), "tag": "acc"})
         elif a["a"] == "set":
-            i = sec(a["i"])
-            steps.append({"op": "setitem", "a": {"r": arr}, "i": i, "v": sec(a["v"]), "tag": "acc"})
+            i = idx(a["i"], a["ik"])
+            steps.append({"op": "setitem", "a": {"r": arr}, "i": i, "v": idx(a["v"], "s"), "tag": "acc"})
         elif a["a"] == "get2":
-            i, j = sec(a["i"]), sec(a["j"])
+            i, j = idx(a["i"], a["ik"]), idx(a["j"], a["jk"])
             steps.append({"op": "getitem", "a": {"r": arr}, "i": {"l": [i, j]}, "tag": "acc"})
         elif a["a"] == "set2":
-            i, j = sec(a["i"]), sec(a["j"])
+            i, j = idx(a["i"], a["ik"]), idx(a["j"], a["jk"])
             steps.append({"op": "setitem", "a": {"r": arr}, "i": {"l": [i, j]}, "v": {"c": a["v"]}, "tag": "acc"})
+        elif a["a"] == "copyrow":
+            # m[dst] = m[src]: a compound statement -- read the row (may raise), then store it at the public position
+            steps.append({"op": "copyrow", "a": {"r": arr}, "dst": a["i"], "src": idx(a["j"], a["jk"]), "tag": "acc"})
         n += 1
         steps.append({"op": "peek", "a": {"r": arr}, "tag": "peek"})
         n += 1
@@ -80,7 +83,7 @@ def view(tr):
     for k in range(0, len(acc) - 1, 2):
         a, p = acc[k], acc[k + 1]
         spec = h["hist"][k // 2]
-        evs.append({"a": spec["a"], "i": spec["i"], "j": spec["j"], "v": spec["v"], "out": a["out"],
+        evs.append({"a": spec["a"], "i": spec["i"], "j": spec["j"], "v": spec["v"], "ik": spec["ik"], "jk": spec["jk"], "out": a["out"],
                     "ret": [x["v"] for x in a["res"]] if a["out"] == "ok" else [], "cells": [x["v"] for x in p["res"]], "seq": a["seq"]})
     return {"id": tr["id"], "dim": h["dim"], "arr0": h["arr0"], "events": evs}
 
@@ -127,8 +130,9 @@ def main(tier):
     for ml in ((1, 2) if tier == "quick" else (1, 2, 3)):
         hists += gen_histories(run, ml)
     if tier == "quick":
-        # quick: all histories of 1 and 2 accesses on 1-D arrays, every third 2-access history on the 2x2 array
-        hists = [h for k, h in enumerate(hists) if h["dim"] == 1 or len(h["hist"]) == 1 or k % 3 == 0]
+        # quick: all histories of 1 access, every 2-access history on 1-D arrays, every fifth on the 2x2 array but ALL of those
+        # that start with a row copy
+        hists = [h for k, h in enumerate(hists) if len(h["hist"]) == 1 or (h["dim"] == 1 and k % 2 == 0) or k % 5 == 0 or h["hist"][0]["a"] == "copyrow"]
     progs = [to_program("h%d" % i, h) for i, h in enumerate(hists)]
     traces = common.run_programs(cfg, progs)
     for h in hists:
@@ -164,7 +168,7 @@ def main(tier):
         groups = {}
         for p, t in zip(progs, traces):
             h = p["meta"]["hist"]
-            key = json.dumps([h["dim"], h["arr0"], [[a["a"], a["v"]] for a in h["hist"]]])
+            key = json.dumps([h["dim"], h["arr0"], [[a["a"], a["v"], a["ik"], a["jk"]] + ([a["i"]] if a["ik"] == "p" else []) + ([a["j"]] if a["jk"] == "p" else []) for a in h["hist"]]])
             groups.setdefault(key, []).append(t)
         gl = []
         for kk, ts in groups.items():
